@@ -386,6 +386,7 @@ class ExecBase:
 
     def add_constraint(self, st, c):
         """add an assumption to the path condition (solver and state)"""
+        self.flush_asserts(st)
         self.solver.add(c)
         st.pc.append(c)
         if st.model is not None and not z3.is_true(st.model.eval(c, model_completion=True)):
